@@ -219,6 +219,13 @@ def run_harness(binp, args, timeout=1800, env=None, tolerate_crash=False):
     p = subprocess.run([binp] + args, stdout=subprocess.PIPE, stderr=subprocess.STDOUT, text=True, timeout=timeout, env=e)
     if p.returncode != 0:
         msg = "harness %s failed (exit %d):\n%s" % (" ".join(args[:3]), p.returncode, p.stdout[:1500] + "\n...\n" + p.stdout[-1500:])
+        # (the excerpt may cut the one frame that tells whose code crashed: name the library types seen anywhere in the dump)
+        seen = [t for t in ("flyt.(*SharedStore)", "flyt.(*WorkerPool)", "flyt.NewWorkerPool", "flyt.runBatch", "flyt.Run(") if t in p.stdout]
+        if seen:
+            msg += "\n[goroutine dump mentions: %s]" % ", ".join(seen)
+        for marker in ("fatal error: concurrent map", "panic:"):
+            if marker in p.stdout and marker not in msg:
+                msg += "\n[%s ...]" % marker
         if tolerate_crash and ("goroutine " in p.stdout or "fatal error" in p.stdout) and "HARNESS-" not in p.stdout:
             return msg
         raise ToolFailure(msg)
